@@ -169,6 +169,28 @@ func runC01(c *Ctx) {
 				if post != nil {
 					post()
 				}
+				// the same bytes again with other headers: the headers of THIS upload must come back
+				if path == "put" && sz <= 100000 && c.Rng.Intn(3) == 0 {
+					md2 := c01Meta(c)
+					md2["X-Amz-Meta-Rev"] = fmt.Sprint(c.Rng.Intn(1000))
+					h2 := map[string]string{}
+					for k, v := range md2 {
+						h2[k] = v
+					}
+					l2, o2 := r.Put(bucket, key, h2, body)
+					r.judgeProj(l2, o2, "c01:reput", ident, nil)
+					if strings.HasPrefix(o2, "stored") {
+						lg2, og2 := r.Get(bucket, key)
+						r.judgeProj(lg2, og2, "c01:get-after-reput", ident, nil)
+						lh2, oh2 := r.Head(bucket, key)
+						r.judgeProj(lh2, oh2, "c01:head-after-reput", ident, nil)
+						c.R.Evaluations++
+						if !sentSubset(md2, og2) || !sentSubset(md2, oh2) || !strings.HasPrefix(og2, wantG) {
+							c.mismatch(Mismatch{Kind: "spec", Backend: kind, Case: append(append([]string{}, r.Lines...)), Finger: "c01:sent-metadata-not-returned:reput",
+								Impl: trunc(og2, 300), Spec: "the same bytes uploaded again: every header of the second upload returned unchanged: " + metaLine(md2)})
+						}
+					}
+				}
 				c.hist("upload:" + path + ":ok")
 				c.nontrivial(fmt.Sprintf("%s|%s|%d|%s", kind, path, sz, key))
 				if len(c.R.Samples) < 6 {
